@@ -10,6 +10,60 @@ from gen import c11 as G
 
 UNL = 4294967295
 
+# how often the hypotheses of fairness_k_waiters / fairness_tick_groups held on an implementation transition
+FAIR = {"cycle_fit": 0, "cycle_not_fit": 0, "tick_all_groups_fit": 0, "tick_not_fit": 0, "waiters_checked": 0, "k_hist": {},
+        "request_by_alternate": 0, "request_by_quota": 0, "groups_hist": {}}
+
+
+def group_fits(h, g, quota):
+    """hypotheses of fairness_k_waiters for group g of parsed half h (coq: ProofsFair2.group_fits): no min_slots
+    reservations, room below max_slots for every waiter, currently_queued <= cycle_request. Returns
+    (fits, waiters, request_driven_by_alternate)."""
+    q = h["Q"][g]
+    ents = [h["T"][t] for t in q["ents"] if 0 <= t < len(h["T"])]
+    waiters = [c for e in ents for c in e["q"]]
+    if any(e["min"] != 0 for e in ents) or any(len(e["q"]) + len(e["u"]) > e["max"] for e in ents):
+        return False, waiters, False
+    req = G.cycle_request(quota, q["max"], max(q["cu"], 0))
+    q1 = min(quota, q["max"])
+    by_alt = not (q["cu"] < q1 and q1 - q["cu"] >= G.max_alternate(max(q["cu"], 0)))
+    return q["cq"] <= req, waiters, by_alt
+
+
+def check_fair(op, hp, hn, side):
+    """fairness_k_waiters (direct cycle) and fairness_tick_groups (tick without a global maximum) on ONE transition of
+    the implementation: when the hypotheses hold in the state before, every waiting connection is unchoked after."""
+    bad = []
+    todo = []
+    if op[0] == "CY" and len(op) == 4 and op[1] == side[0] and int(op[2]) < len(hp["Q"]):
+        g = int(op[2])
+        fits, waiters, by_alt = group_fits(hp, g, int(op[3]))
+        FAIR["cycle_fit" if fits and waiters else "cycle_not_fit"] += 1
+        if fits and waiters:
+            todo.append((g, waiters, by_alt, "cycle(%s)" % op[3], "fit-waiter-not-unchoked"))
+    elif op[0] == "TK" and hp["max"] == 0 and hp["Q"]:
+        res = [group_fits(hp, g, UNL) for g in range(len(hp["Q"]))]
+        allw = [c for _, w, _ in res for c in w]
+        if all(f for f, _, _ in res) and allw:
+            FAIR["tick_all_groups_fit"] += 1
+            ngw = sum(1 for _, w, _ in res if w)
+            FAIR["groups_hist"][ngw] = FAIR["groups_hist"].get(ngw, 0) + 1
+            for g, (f, w, by_alt) in enumerate(res):
+                if w:
+                    todo.append((g, w, by_alt, "receive_tick without a global maximum", "fit-waiter-not-unchoked-tick"))
+        else:
+            FAIR["tick_not_fit"] += 1
+    for g, waiters, by_alt, what, kl in todo:
+        k = len(waiters)
+        FAIR["k_hist"][k] = FAIR["k_hist"].get(k, 0) + 1
+        FAIR["request_by_alternate" if by_alt else "request_by_quota"] += 1
+        FAIR["waiters_checked"] += k
+        left = [c for c in waiters if c >= len(hn["C"]) or not hn["C"][c]["u"]]
+        if left:
+            bad.append((kl, "%s queue %d: %s with %d waiting connections that fit the cycle's request (no min_slots, room below max_slots) "
+                        "left connection(s) %s choked (fairness_k_waiters: one cycle unchokes every waiter)" % (side, g, what, k, left)))
+    return bad
+
 
 def parse_half(s):
     toks = s.split(" ")
@@ -210,6 +264,9 @@ def oracle(case, line):
                                     "connection(s) %s never got a slot" % (st["n"], hp["max"], len(st["elig"]), sorted(st["elig"] - st["seen"]))))
                 elif op[0] != "AD":
                     st["n"] = 0
+        if prev is not None:
+            bad += check_fair(op, prev[1], up, "upload")
+            bad += check_fair(op, prev[2], dn, "download")
         prev = (now, up, dn)
         if bad:
             break
@@ -374,6 +431,8 @@ def run(rep, tier, seed, replay):
                         "non-trivial = distinct case in which the implementation unchoked at least one connection and later choked one",
                    probed_params=probe, source_crosscheck_notes=source_crosscheck(probe),
                    samples=samples, input_distribution=stats, mismatches=mism, wire_cases=wire_n, wire_steps=wire_steps,
+                   fairness_k_waiters_oracle=dict(FAIR, rule="transitions of the implementation on which the hypotheses of fairness_k_waiters "
+                                                  "(CY) / fairness_tick_groups (TK, global maximum 0) held with >= 1 waiter; every waiter was checked to be unchoked after"),
                    exhaustive=(tier == "thorough"))
     rep.assumptions += ["at most 16 connections per entry list and at most 16 choke groups (std::sort is a stable insertion sort there)",
                         "connections are only queued on the download side while the remote has unchoked us (as PeerConnection::read_message does)",
